@@ -59,26 +59,63 @@ Proof.
     rewrite L in H2. rewrite (items_sorted _ 0 H2). split; assumption.
 Qed.
 
-Lemma f_or_drop_repl (f : option mdf) :
-  f_or_drop (if is_none f then Some (fun (x y : option Tree) => None) else f) = f_or_drop f.
-Proof. destruct f; reflexivity. Qed.
+(* ---- the metadata loops ---- *)
+Lemma fold_res_step {S X} (body : result S -> X -> result S) (step : S -> X -> S) :
+  (forall s x, body (ROk s) x = ROk (step s x)) ->
+  forall l s, fold_left body l (ROk s) = ROk (fold_left step l s).
+Proof. intros H. induction l as [|x l IH]; intros s; [reflexivity|]. cbn [fold_left]. rewrite H. apply IH. Qed.
 
-Lemma build_eq self o (ds do : zdict nat) fs fo fs' fo' :
-  f_or_drop fs' = f_or_drop fs -> f_or_drop fo' = f_or_drop fo ->
-  (if is_empty ds then RErr E_TABLE else if is_empty do then RErr E_TABLE else merge_build self o ds do fs' fo')
-  = match map fst ds, map fst do with
-    | [], _ => RErr E_TABLE
-    | _, [] => RErr E_TABLE
-    | _, _ => ROk (mkT (map fst do) (map fst ds) (map (merged_row self o (map fst ds)) (map fst do))
-                       (merged_md (f_or_drop fo) Obs self o (map fst do))
-                       (merged_md (f_or_drop fs) Samp self o (map fst ds)) NOTYPE)
-    end.
+Definition md_step (g : mdf) (ax : axis) (a b : table) (st : list Z * list (option Tree)) (it : Z * nat)
+  : list Z * list (option Tree) :=
+  (fst st ++ [fst it], snd st ++ [g (md_of ax a (fst it)) (md_of ax b (fst it))]).
+
+Lemma md_step_fold g ax a b l : forall st,
+  fold_left (md_step g ax a b) l st
+  = (fst st ++ map fst l, snd st ++ map (fun p => g (md_of ax a (fst p)) (md_of ax b (fst p))) l).
 Proof.
-  intros Es Eo. destruct ds as [|p ds]; [destruct do; reflexivity|]. destruct do as [|q do]; [reflexivity|].
-  cbn [is_empty]. unfold merge_build. cbv zeta. rewrite Es, Eo. reflexivity.
+  induction l as [|p l IH]; intros [i m]; cbn [fold_left map fst snd].
+  - rewrite !app_nil_r. reflexivity.
+  - rewrite IH. unfold md_step. cbn [fst snd]. rewrite <- !app_assoc. reflexivity.
+Qed.
+
+Lemma zmem_false_pos x l : zmem x l = false -> pos x l = None.
+Proof.
+  unfold zmem, pos. induction l as [|y l IH]; [reflexivity|]. cbn [existsb index_of].
+  destruct (Z.eqb x y); [discriminate|]. cbn [orb]. intros H. rewrite (IH H). reflexivity.
+Qed.
+
+(* the guarded look-up of the source is the model's md_of *)
+Lemma md_of_guard ax t id :
+  md_of ax t id = (if is_none (tb_metadata t ax) || negb (tb_exists t id ax) then None
+                   else md_subscript (tb_metadata t ax) (ids ax t) id).
+Proof.
+  unfold md_of, md_at, md_subscript, tb_exists.
+  assert (E : mds ax t = tb_metadata t ax) by (destruct ax; reflexivity). rewrite E.
+  destruct (tb_metadata t ax) as [l|]; cbn [is_none orb].
+  - destruct (zmem id (ids ax t)) eqn:Z; cbn [negb]; [reflexivity|]. rewrite (zmem_false_pos _ _ Z). reflexivity.
+  - destruct (pos id (ids ax t)); reflexivity.
 Qed.
 
 Definition ids_nodup (t : table) : Prop := NoDup (oids t) /\ NoDup (sids t).
+
+(* one metadata loop: the side condition of fold_res_step for the generated body *)
+Ltac md_body ax self o :=
+  intros [i m] [id_ idx]; cbn [rbind]; cbv beta iota zeta; unfold md_step; cbn [fst snd];
+  rewrite (md_of_guard ax self id_), (md_of_guard ax o id_);
+  destruct (is_none (tb_metadata self ax) || negb (tb_exists self id_ ax));
+  destruct (is_none (tb_metadata o ax) || negb (tb_exists o id_ ax));
+  reflexivity.
+
+(* what is built once both orders are known and not empty *)
+Ltac build_case self o gs go :=
+  match goal with |- context [is_empty ?d] => destruct d as [|? ?]; [reflexivity|] end;
+  match goal with |- context [is_empty ?d] => destruct d as [|? ?]; [destruct (map fst _); reflexivity|] end;
+  cbn [is_empty];
+  rewrite (fold_res_step _ (md_step gs Samp self o)) by md_body Samp self o;
+  cbn [rbind]; cbv beta iota zeta;
+  rewrite (fold_res_step _ (md_step go Obs self o)) by md_body Obs self o;
+  cbn [rbind]; rewrite !md_step_fold; cbv beta iota zeta; cbn [fst snd app];
+  unfold tb_construct, merge_vectors, merged_md; rewrite !map_map; reflexivity.
 
 (* a single table: no call of the recursion parameter *)
 Lemma gen_merge_single (rec : merge_rec) self o sm om fs fo : ids_nodup self ->
@@ -88,44 +125,23 @@ Proof.
   unfold gen_merge, merge_pair, fast_ok. cbv beta zeta. cbn [arg_is_seq arg_table arg_list app].
   rewrite no_md_gen, !mode_eqb_union.
   cbn [length Nat.eqb negb list_item nth_error rbind]. unfold tb_fast_merge.
-  assert (K : forall fs' fo', f_or_drop fs' = f_or_drop fs -> f_or_drop fo' = f_or_drop fo ->
-    (if is_union sm
-     then (if is_union om
-           then (if is_empty (items_by_value (tb_union_id_order self (sids self) (sids o))) then RErr E_TABLE
-                 else if is_empty (items_by_value (tb_union_id_order self (oids self) (oids o))) then RErr E_TABLE
-                 else merge_build self o (items_by_value (tb_union_id_order self (sids self) (sids o)))
-                        (items_by_value (tb_union_id_order self (oids self) (oids o))) fs' fo')
-           else if mode_eqb om Inter
-           then (if is_empty (items_by_value (tb_union_id_order self (sids self) (sids o))) then RErr E_TABLE
-                 else if is_empty (items_by_value (tb_intersect_id_order self (oids self) (oids o))) then RErr E_TABLE
-                 else merge_build self o (items_by_value (tb_union_id_order self (sids self) (sids o)))
-                        (items_by_value (tb_intersect_id_order self (oids self) (oids o))) fs' fo')
-           else RErr E_TABLE)
-     else if mode_eqb sm Inter
-     then (if is_union om
-           then (if is_empty (items_by_value (tb_intersect_id_order self (sids self) (sids o))) then RErr E_TABLE
-                 else if is_empty (items_by_value (tb_union_id_order self (oids self) (oids o))) then RErr E_TABLE
-                 else merge_build self o (items_by_value (tb_intersect_id_order self (sids self) (sids o)))
-                        (items_by_value (tb_union_id_order self (oids self) (oids o))) fs' fo')
-           else if mode_eqb om Inter
-           then (if is_empty (items_by_value (tb_intersect_id_order self (sids self) (sids o))) then RErr E_TABLE
-                 else if is_empty (items_by_value (tb_intersect_id_order self (oids self) (oids o))) then RErr E_TABLE
-                 else merge_build self o (items_by_value (tb_intersect_id_order self (sids self) (sids o)))
-                        (items_by_value (tb_intersect_id_order self (oids self) (oids o))) fs' fo')
-           else RErr E_TABLE)
-     else RErr E_TABLE) = merge_general self o sm om fs fo).
-  { intros fs' fo' Efs Efo. unfold merge_general.
-    pose proof (gen_order_spec sm self (sids self) (sids o) Hs) as Ps.
-    pose proof (gen_order_spec om self (oids self) (oids o) Ho) as Po.
-    destruct sm, om; cbn [gen_order order_for is_union mode_eqb] in *;
-      try reflexivity;
-      try (destruct Ps as (Ps & _); destruct Po as (Po & _); rewrite <- Ps, <- Po; apply build_eq; assumption);
+  pose proof (gen_order_spec sm self (sids self) (sids o) Hs) as Ps.
+  pose proof (gen_order_spec om self (oids self) (oids o) Ho) as Po.
+  (* the general path, whichever way it is reached *)
+  match goal with
+  | |- (if _ then (if _ then _ else ?G) else ?G) = _ =>
+      assert (HG : G = merge_general self o sm om fs fo); [|rewrite HG]
+  end.
+  - unfold merge_general.
+    destruct fs as [gs|], fo as [go|]; cbn [is_none f_or_drop];
+      destruct sm, om; cbn [gen_order order_for is_union mode_eqb] in *; try reflexivity;
       try (destruct Ps as (Ps & _); rewrite <- Ps;
-           match goal with |- context [match map fst ?d with _ => _ end] => destruct d; reflexivity end). }
-  destruct (forallb no_md [self; o] || (is_none fs && is_none fo)); cbn [andb];
-    [destruct (is_union sm) eqn:Es, (is_union om) eqn:Eo; cbn [andb]; [reflexivity| | |]|];
-    try rewrite Es; try rewrite Eo;
-    destruct fs as [gs|], fo as [go|]; cbn [is_none]; apply K; reflexivity.
+           match goal with |- context [match map fst ?d with _ => _ end] => destruct d; reflexivity end);
+      destruct Ps as (Ps & _); destruct Po as (Po & _); rewrite <- Ps, <- Po.
+    all: first [ build_case self o gs go | build_case self o gs drop_md
+               | build_case self o drop_md go | build_case self o drop_md drop_md ].
+  - destruct (forallb no_md [self; o] || (is_none fs && is_none fo)); cbn [andb];
+      [destruct (is_union sm), (is_union om); cbn [andb]|]; reflexivity.
 Qed.
 
 Lemma merge_pair_nodup sm om fs fo self o m :
